@@ -56,7 +56,14 @@ fn object_ext(enc: Enc, subset: u64, rot: usize, link: Option<u32>, first: Optio
     }
     if subset & HASH != 0 {
         // the declared entry size of a hash section is not part of its format: it varies with the order
-        secs.push(Sec::new(b".hash", SHT_HASH, build_sysv(enc.order, &dyn_names, 2)).entsize([4, 0, 8, 1, 16][rot % 5]));
+        // in every other order the table has two chain slots more than .dynsym has symbols (nchain is
+        // the hash section's own business: it does not resize the symbol table)
+        let mut hashed_names = dyn_names.clone();
+        if rot % 2 == 1 {
+            hashed_names.push(b"phantom_1".to_vec());
+            hashed_names.push(b"phantom_2".to_vec());
+        }
+        secs.push(Sec::new(b".hash", SHT_HASH, build_sysv(enc.order, &hashed_names, 2)).entsize([4, 0, 8, 1, 16][rot % 5]));
     }
     if subset & GNUHASH != 0 {
         secs.push(Sec::new(b".gnu.hash", SHT_GNU_HASH, g.section.clone()).entsize([0, 4, 8][rot % 3]));
